@@ -35,6 +35,13 @@ macro_rules! corpus {
                 _ => None,
             }
         }
+        /// `OptionParser::run()` in this very process (prints / exits like a real program would)
+        pub fn run_real(name: &str) -> Option<String> {
+            match name {
+                $(stringify!($name) => Some(format!("{:?}", grammars::$name().run())),)*
+                _ => None,
+            }
+        }
         /// `check_invariants` of every grammar (so the corpus stays inside the property's quantifier)
         pub fn check_all() {
             $(grammars::$name().check_invariants(false);)*
